@@ -88,6 +88,8 @@ def scenarios(tier):
     # same box, other periodicity, droplets reaching across both boundaries (state keyed on the grid must include the periodicity)
     out["storage-pp"] = {"api": "storage", "frames": ["X", "A", "Y", "X", "B"][:n], "times": t_inc, "kwargs": {"refine": False}, "periodic": [True, True]}
     out["storage-pn"] = {"api": "storage", "frames": ["X", "A", "Y", "X", "B"][:n], "times": t_inc, "kwargs": {"refine": False}, "periodic": [True, False]}
+    # cylindrical grid with dz != 1 and periodic z: a frame with a thread spanning the axis, frames with a blob across the boundary
+    out["storage-cyl"] = {"api": "storage", "cyl_frames": ["Cm", "T", "Bx", "Cm2", "Bx"][:n], "frames": ["Cm", "T", "Bx", "Cm2", "Bx"][:n], "times": t_inc, "kwargs": {"refine": False}}
     out["tracks-dup"] = {"api": "tracks", "frames": ["A", "C", "B", "D", "E"][:n], "times": t_dup, "kwargs": {"refine": False, "method": "distance"}}
     return out
 
@@ -128,6 +130,26 @@ def build(sc):
         return (_field(sc["drops"]),)
     from pde import MemoryStorage
 
+    if "cyl_frames" in sc:
+        from pde import ScalarField
+
+        grid = geom.make_grid({"kind": "cyl", "shape": [8, 20], "R": 8.0, "z": [0.0, 10.0], "periodic_z": True})  # ONE grid object for all frames
+        st = MemoryStorage()
+        st.start_writing(ScalarField(grid, 0.0))
+        for name, t in zip(sc["cyl_frames"], sc["times"]):
+            a = np.zeros((8, 20))
+            if name == "Cm":
+                a[:3, 8:13] = 1
+            elif name == "T":
+                a[:2, :] = 1
+            elif name == "Bx":
+                a[:3, :3] = 1
+                a[:3, 17:] = 1
+            else:
+                a[:2, 4:8] = 1
+                a[:2, 12:16] = 1
+            st.append(ScalarField(grid, a), t)
+        return (st,)
     st = MemoryStorage()
     st.start_writing(_field([], periodic=sc.get("periodic")))
     for name, t in zip(sc["frames"], sc["times"]):
